@@ -708,6 +708,9 @@ def abort_rows(ctx, rule):
     for o in outs:
         pi = publish_info(ctx, R, o)
         n += 1
+        if pi["root"] is None:
+            ctx.violation(rule, rule + "|no-lock", "a path of abort never touches the shared state: the error is not stored and the consumer is not told", where=_w(o))
+            continue
         if pi["entry"] == R["live"]:
             fs = pi["final_state"]
             if not (is_agg(fs) and fs[3] == R["err"] and agg_get(fs, "0") == ("param", 2)):
